@@ -3,6 +3,11 @@
 import json, subprocess, sys
 
 claimed = {
+ "C11": dict(
+   text="Deductively proved so far: labeledMerge (the pooled sample is sorted, NaN-free, labelled 1/2; safety and termination of its three loops).  The decisive parts — the rank-sum loop, the selection of the tail for each alternative, UDist.p (dynamic programming) and makeUmemo (memoised counting recurrence with its K=2 base case), whose correctness is a combinatorial theorem — are outside deductive reach in this build and are covered by a bounded stand-in: exhaustive comparison with brute-force enumeration of label assignments for every pair of multisets over 4 values with n1+n2 <= 8 (thorough: 10), PMF/CDF consistency, mathChoose against big integers for n <= 62, the normal approximation evaluated independently, error cases.  It exposed two defects that were repaired (K=2 base case; 'greater' tail with ties) and one recorded as a known finding (two-sided p with ties, pinned by an existing test).",
+   note="Mostly bounded evidence; the proof obligations concern the merge step only.  The symmetry of the untied null distribution is a textbook fact used implicitly by the code.",
+   technique="bounded exhaustive enumeration against a brute-force oracle (stand-in), plus contract-based deductive verification of labeledMerge",
+   design="5/C11"),
  "C01": dict(
    text="The reader half of the round trip is under deductive contracts shared with C02/C04 (key lines: parseKeyValueLine against the rune-level key rule; the configuration index; parseBenchmarkLine keeps the written value/unit pair whenever it rescales).  The writer's diffing of configurations (writeResult/writeFileConfig: map of struct values, overlapping copy, fmt.Fprintf into a buffer) is NOT under contract in this build; the round-trip statement itself is checked by a bounded stand-in: exhaustive 2-step and sampled 3-step configuration histories over {absent, file, internal} (which exposed the missing deletion on a file-to-internal transition — fixed), all special float values in plain and rescaled units, and seeded random streams with API edits.",
    note="The deciding evidence for the write/read equality is bounded, not a proof; proved obligations concern the reader's line rules only.  Float text: %v shortest round-trip formatting and strconv are trusted.",
